@@ -224,39 +224,60 @@ func (ctx *context) ResolveAndCompile(pathname string, opts py.CompileOpts) (py.
 // pushBusy admits one execution, or refuses with an error once the context is closed.
 // Every successful pushBusy must be paired with exactly one popBusy.
 func (ctx *context) pushBusy() error {
+	verifYield("pushBusy.lock")
 	ctx.mu.Lock()
+	verifYield("pushBusy.load-closed")
 	if ctx.closed {
+		verifYield("pushBusy.unlock")
 		ctx.mu.Unlock()
 		return py.ExceptionNewf(py.RuntimeError, "Context closed")
 	}
+	verifYield("pushBusy.inc-running")
 	ctx.running++
+	verifYield("pushBusy.unlock")
 	ctx.mu.Unlock()
 	return nil
 }
 
 func (ctx *context) popBusy() {
+	verifYield("popBusy.lock")
 	ctx.mu.Lock()
+	verifYield("popBusy.dec-running")
 	ctx.running--
+	verifYield("popBusy.load-running")
 	if ctx.running == 0 {
+		verifYield("popBusy.broadcast")
 		ctx.idle.Broadcast()
 	}
+	verifYield("popBusy.unlock")
 	ctx.mu.Unlock()
 }
 
 // See interface py.Context defined in py/run.go
 func (ctx *context) Close() error {
+	verifYield("Close.once-enter")
 	ctx.closeOnce.Do(func() {
+		verifYield("Close.lock")
 		ctx.mu.Lock()
+		verifYield("Close.store-closing")
 		ctx.closing = true
+		verifYield("Close.load-running")
 		for ctx.running > 0 {
+			verifYield("Close.wait")
 			ctx.idle.Wait()
+			verifYield("Close.load-running")
 		}
+		verifYield("Close.store-closed")
 		ctx.closed = true
+		verifYield("Close.unlock")
 		ctx.mu.Unlock()
 
 		// Give each module a chance to release resources
+		verifYield("Close.callbacks")
 		ctx.store.OnContextClosed()
+		verifYield("Close.close-done")
 		close(ctx.done)
+		verifYield("Close.once-exit")
 	})
 	return nil
 }
